@@ -218,7 +218,7 @@ def newInfoWith (fixed : Bool) (p : Params) (ib : InfoIn) : Except Reject InfoOu
   let name := effName p.utf8 ib
   let files := effFiles p.utf8 ib
   -- ".." is not allowed in file names
-  if fixed && isDotDotName name then .error .dotdot else
+  if fixed && isDotOrDotDotName name then .error .dotdot else
   if files.any (fun f => f.2.1.any isDotDotName) then .error .dotdot else
   let np32 := (ib.piecesLen / 20) % two32      -- uint32(numPieces)
   match lengthsOf fixed files ib.length with
